@@ -197,7 +197,8 @@ def field_ct_drivers(f):
         ds.append((Driver("drv_ct_%s_%s" % (f.tag, op), [("a", "in", 8, n), ("b", "in", 8, n), ("out", "out", 8, n)],
                           "        let x: %s = %s; let y: %s = %s;\n        *out = %s;"
                           % (ty, tm(ty, n, "a"), ty, tm(ty, n, "b"), back(ty, n, e))), "%s::%s" % (ty, op)))
-    ds.append((Driver("drv_ct_%s_sqrt" % f.tag, [("a", "in", 8, n), ("out", "out", 8, n), ("st", "out", 4, 1)],
+    if f.q % 4 == 3 or f.q % 8 == 5:
+      ds.append((Driver("drv_ct_%s_sqrt" % f.tag, [("a", "in", 8, n), ("out", "out", 8, n), ("st", "out", 4, 1)],
                       "        let x: %s = %s;\n        let (r, c) = x.sqrt();\n        *out = %s; st[0] = c;"
                       % (ty, tm(ty, n, "a"), back(ty, n, "r"))), "%s::sqrt" % ty))
     ds.append((Driver("drv_ct_%s_legendre" % f.tag, [("a", "in", 8, n), ("st", "out", 4, 1)],
@@ -284,13 +285,14 @@ def misc_ct_drivers():
     ds.append((Driver("drv_ct_sha256", [("msg", "in", 1, 70), ("out", "out", 1, 32)],
                       "        let mut sh = crate::sha2::Sha256::new();\n        sh.update(&msg[..]);\n        *out = sh.finalize();"),
                "sha2::Sha256 over a secret 70-byte message"))
+    mk = ("        let mut sec = Scalar::decode_reduce(&sk[..]);\n"
+          "        let point = Point::mulgen(&sec);\n"
+          "        let k = PrivateKey { sec: sec, public_key: PublicKey { point: point, encoded: point.encode() } };\n")
     ds.append((Driver("drv_ct_jq255e_sign", [("sk", "in", 1, 32), ("msg", "in", 1, 20), ("out", "out", 1, 48)],
-                      "        let k = crate::jq255e::PrivateKey::decode(&sk[..]).unwrap_or(crate::jq255e::PrivateKey::decode(&[1u8;32]).unwrap());\n"
-                      "        *out = k.sign_seeded(&[], \"\", &msg[..]);"),
-               "jq255e::PrivateKey::sign_seeded (secret key; decode() is documented variable-time on validity only)"))
+                      mk + "        *out = k.sign_seeded(&[], \"\", &msg[..]);", "src/jq255e.rs"),
+               "jq255e::PrivateKey::sign_seeded (secret key built from a secret scalar, secret message)"))
     ds.append((Driver("drv_ct_jq255e_ecdh", [("sk", "in", 1, 32), ("pk", "in", 1, 32), ("out", "out", 1, 32), ("st", "out", 4, 1)],
-                      "        let k = crate::jq255e::PrivateKey::decode(&sk[..]).unwrap_or(crate::jq255e::PrivateKey::decode(&[1u8;32]).unwrap());\n"
-                      "        let (key, ok) = k.ECDH(&pk[..]);\n        *out = key; st[0] = ok;"),
+                      mk + "        let (key, ok) = k.ECDH(&pk[..]);\n        *out = key; st[0] = ok;", "src/jq255e.rs"),
                "jq255e::PrivateKey::ECDH (secret key, peer key bytes treated as secret too)"))
     return ds
 
